@@ -108,6 +108,7 @@ type world struct {
 	byHash map[chainhash.Hash]*node
 	main   []*node
 	warps  []*node // leaves of the time-warp branches
+	long   []*node // the long branch of the long-branch script
 }
 
 // requiredBits re-implements btcd's (unexported) next-difficulty rule; every
@@ -259,6 +260,7 @@ var paramSets = []struct {
 	minDiff    bool
 }{
 	{true, 2016, true}, {false, 4, false}, {false, 4, true}, {false, 8, false}, {true, 2016, false}, {false, 8, true},
+	{false, 146, false}, // long-branch script only: a retarget whose look-back lies more than a day of blocks back
 }
 
 func (w *world) spacing(style int) int64 {
@@ -489,6 +491,25 @@ func (w *world) build(t *tr.W) {
 			w.extend(p, 1+rng.Intn(3), rng.Intn(4))
 		}
 	}
+	w.judge()
+}
+
+// buildLong: a short main chain and ONE long competing branch (more than two retarget intervals of
+// 146 blocks) forking off near genesis, so that the branch contains a retarget height whose
+// look-back block lies inside the branch, more than 144 headers behind.  Constant spacing keeps the
+// difficulty where it is; every header is valid.
+func (w *world) buildLong(t *tr.W) {
+	gen := w.nodes[0]
+	w.main = append([]*node{gen}, w.extend(gen, 10+w.rng.Intn(4), 0)...)
+	fp := w.main[1+w.rng.Intn(3)]
+	cur := fp
+	for i := 0; i < 300+w.rng.Intn(10); i++ {
+		cur = w.mine(cur, cur.hdr.Timestamp.Unix()+600, "ok")
+		w.long = append(w.long, cur)
+	}
+	w.ts.now = time.Unix(cur.hdr.Timestamp.Unix()+3600, 0)
+	t.Hit("checkpoints.0")
+	t.Hit("time.long")
 	w.judge()
 }
 
@@ -1002,9 +1023,16 @@ func filterHash(n *node) chainhash.Hash {
 // ------------------------------------------------------------ one case
 
 func runCase(t *tr.W, rng *rand.Rand, nev int, script string) {
-	ps := rng.Intn(len(paramSets))
+	ps := rng.Intn(len(paramSets) - 1)
+	if script == "long" {
+		ps = len(paramSets) - 1
+	}
 	w := newWorld(rng, ps)
-	w.build(t)
+	if script == "long" {
+		w.buildLong(t)
+	} else {
+		w.build(t)
+	}
 	t.Hit(fmt.Sprintf("params.%d", ps))
 	npeers := 3
 	s, err := newSys(w, npeers, rng)
@@ -1205,6 +1233,18 @@ func runCase(t *tr.W, rng *rand.Rand, nev int, script string) {
 		t.Op(fmt.Sprintf("backlog %d", h), s.dump(res, best, bl))
 	}
 
+	if script == "long" {
+		// the sync peer gives us the short chain, then reveals the long one in a single message; a
+		// second long branch (lighter) and some filter-header traffic follow
+		t.Hit("script.long-branch")
+		newpeer(1)
+		headers(1, w.main[1:], "main")
+		headers(1, w.long, "long-branch")
+		cfwrite()
+		backlog()
+		headers(2, w.long[len(w.long)-3:], "known")
+		return
+	}
 	// a sync peer is usually there from the start
 	if rng.Intn(8) > 0 {
 		p := 1 + rng.Intn(2)
@@ -1744,5 +1784,8 @@ func Run(t *tr.W, thorough bool) {
 	}
 	for i := 0; i < ncases; i++ {
 		runCase(t, rng, 18+rng.Intn(30), "")
+		if i == ncases/3 || i == 2*ncases/3 {
+			runCase(t, rng, 0, "long") // a few long-branch cases per run
+		}
 	}
 }
